@@ -58,7 +58,8 @@ fn case_strategy(tier: Tier) -> BoxedStrategy<CacheCase> {
         0u8..3,
         2u32..=7,
         prop::collection::vec(op, 0..=max_ops),
-        0u8..32,
+        // bit 5: event listeners registered
+        prop_oneof![2 => 0u8..32, 1 => 32u8..64],
     )
         .prop_map(|(policy, max_size, ttl, mode, nkeys, ops, setter_order)| CacheCase {
             policy,
@@ -320,6 +321,9 @@ async fn interp(case: &CacheCase) -> Verdict {
     macro_rules! settings {
         ($b:expr) => {{
             let mut b = $b;
+            if case.setter_order & 32 != 0 {
+                b = b.on_hit(|| {}).on_miss(|| {}).on_eviction(|| {});
+            }
             if decoy {
                 b = b.max_size(cap + 5).eviction_policy(other_policy);
                 if ttl.is_some() {
@@ -547,6 +551,9 @@ async fn interp(case: &CacheCase) -> Verdict {
         }
     }
     let mut m = vec![];
+    if case.setter_order & 32 != 0 {
+        m.push("event_listeners_registered");
+    }
     if marks.eviction {
         m.push("eviction_at_capacity");
     }
